@@ -177,3 +177,46 @@ def lib_ident(rec):
 
 def lib_state(rec):
     return (rec.created, rec.ttl)
+
+
+class DupGuard:
+    """Per-socket duplicate-datagram guard as C16 states it: identical bytes within 1000 ms of the previous
+    datagram on the same socket are ignored unless that datagram contained a QU question."""
+
+    def __init__(self):
+        self.data = None
+        self.t = 0.0
+        self.last_qu = False
+
+    def suppressed(self, data, t_ms):
+        return self.data == data and (t_ms - 1000.0) < self.t and not self.last_qu
+
+    def accept(self, data, t_ms, has_qu):
+        self.data, self.t, self.last_qu = data, t_ms, has_qu
+
+
+class HostModel:
+    """What one host has heard: duplicate guard per socket + ModelCache fed with accepted responses."""
+
+    def __init__(self, start_s):
+        self.cache = ModelCache(start_s)
+        self.guards = {}
+        self.suppressed = 0
+
+    def on_rx(self, t_s, sock_label, data):
+        """Returns (msg, effect): msg is the strictly decoded accepted datagram or None; effect for responses."""
+        t_ms = t_s * 1000.0
+        self.cache.advance(t_s)
+        if len(data) > wire.MAX_ABS:
+            return None, None
+        g = self.guards.setdefault(sock_label, DupGuard())
+        if g.suppressed(data, t_ms):
+            self.suppressed += 1
+            return None, None
+        msg = wire.try_decode(data)
+        g.accept(data, t_ms, bool(msg and any(q.qu for q in msg.questions)))
+        if msg is None:
+            return None, None
+        if msg.is_response:
+            return msg, self.cache.apply_response(t_ms, msg.records())
+        return msg, None
